@@ -556,6 +556,57 @@ def _judge_fit_unforced(rng, tag):
     return None
 
 
+def _judge_fit_submodel_sender(rng, tag):
+    """offline fit, feedback sender = a SUB-MODEL that contains the readout being fitted (readout >> gain, or the list [readout]):
+    the forced value is the sender's response to the targets, gain(Y[t-1]) resp. Y[t-1], zero at the first step of each sequence"""
+    import reservoirpy as rpy
+    rpy.verbosity(0)
+    from reservoirpy.node import Node
+    from reservoirpy.nodes import Ridge
+    out = None
+    for how in ("list", "chain"):
+        seen = []
+
+        def init(node, x=None, **kw):
+            node.set_input_dim(x.shape[1]); node.set_output_dim(x.shape[1])
+
+        def fb_init(node, feedback=None):
+            node.set_feedback_dim(feedback.shape[1])
+
+        def fwd(node, x):
+            fb = np.asarray(node.feedback()).reshape(1, -1)
+            seen.append(fb.ravel().copy())
+            return x + 100.0 * fb[:, :1]
+
+        def gain(node, x):
+            return 2.0 * x
+        T = 4
+        X = scen.fl(scengen.rows(rng, T, 1)); Y = scen.fl(scengen.rows(rng, T, 1, lim=8)) + 3.0
+        sc = {"tag": tag, "kind": "fit-submodel-sender", "how": how}
+        R = Node(forward=fwd, initializer=init, fb_initializer=fb_init, name="fs%s%s_R" % (tag, how))
+        rd = Ridge(ridge=1.0, name="fs%s%s_rd" % (tag, how))
+        try:
+            if how == "list":
+                R <<= [rd]
+                m = R >> rd
+                f = lambda v: v
+            else:
+                g = Node(forward=gain, initializer=init, name="fs%s%s_g" % (tag, how))
+                R <<= (rd >> g)
+                m = R >> rd >> g
+                f = lambda v: 2.0 * v
+            m.fit([X, X], [Y, Y])
+        except Exception as ex:  # noqa: BLE001
+            return _viol("fit:submodel-sender:exception", "fit of a model whose feedback sender is a sub-model containing the readout (%s) raises %r" % (how, ex), sc)
+        got = seen[-2 * T:]
+        exp = [np.zeros(1) if t == 0 else f(Y[t - 1]) for _ in range(2) for t in range(T)]
+        if len(got) < 2 * T or any(not np.allclose(g_, e_, atol=1e-9) for g_, e_ in zip(got, exp)):
+            out = out or _viol("fit:submodel-sender-containing-trained-readout:targets-not-forced",
+                               "offline fit, sender = %s: the receiver saw %s, expected the sender's response to the targets of the previous step %s"
+                               % ("[readout]" if how == "list" else "readout >> gain", [g_.tolist() for g_ in got], [np.asarray(e_).tolist() for e_ in exp]), sc)
+    return out
+
+
 def _judge_standalone_train(rng, tag):
     """a readout trained ALONE with Node.train (teachers forced, the default), then reset, then used as feedback sender in a model run:
     the receiver's first step must see the sender's state after the reset (zero), not the last teacher value"""
@@ -614,7 +665,7 @@ def oracle(ctx, scale=1):
         for v in (_judge_list_sender(rng, "%d_%d" % (ctx.seed, i)), _judge_esn_forced(rng, "%d_%d" % (ctx.seed, i)),
                   _judge_deep_fit_forcing(rng, "%d_%d" % (ctx.seed, i)), _judge_teacher_node(rng, "%d_%d" % (ctx.seed, i)),
                   _judge_esn_handwired(rng, "%d_%d" % (ctx.seed, i)), _judge_fit_unforced(rng, "%d_%d" % (ctx.seed, i)),
-                  _judge_standalone_train(rng, "%d_%d" % (ctx.seed, i))):
+                  _judge_standalone_train(rng, "%d_%d" % (ctx.seed, i)), _judge_fit_submodel_sender(rng, "%d_%d" % (ctx.seed, i))):
             if v:
                 out.append(v)
     return {"evaluations": n + ctx.n(3, 20), "violations": out,
@@ -634,6 +685,9 @@ def replay(payload):
         return {"violates": bool(vs), "detail": vs[:1]}
     if sc.get("kind") == "fit-unforced":
         vs = [v for v in (_judge_fit_unforced(core.random.Random(i), "rf%d" % i) for i in range(3)) if v]
+        return {"violates": bool(vs), "detail": vs[:1]}
+    if sc.get("kind") == "fit-submodel-sender":
+        vs = [v for v in (_judge_fit_submodel_sender(core.random.Random(i), "rm%d" % i) for i in range(3)) if v]
         return {"violates": bool(vs), "detail": vs[:1]}
     if sc.get("kind") == "standalone-train":
         vs = [v for v in (_judge_standalone_train(core.random.Random(i), "rs%d" % i) for i in range(3)) if v]
